@@ -273,18 +273,35 @@ func init() {
 			// returned count is len(userData) taken before emptying
 			// over all returns: the value is len(userData) on the path where the chunk was found, 0 otherwise
 			nLen := 0
+			getQ := c.Fn("payloadQueue.get")
+			notFound := func(v ssa.Value, t bool) bool {
+				ex, ok := v.(*ssa.Extract)
+				return ok && ex.Index == 1 && IsCallOf(getQ)(ex.Tuple) && !t
+			}
 			for _, r := range allReturns(mk) {
 				for _, lf := range leavesWithFacts(retResults(r)[0]) {
-					if lenOf(ud, nil)(lf.Val) {
+					switch {
+					case lenOf(ud, nil)(lf.Val):
 						nLen++
-					} else if !IsConstInt(0)(lf.Val) {
+					case IsConstInt(0)(lf.Val):
+						// 0 is returned only for a TSN that is not in flight
+						okNF := false
+						for _, f := range append(append([]condFact{}, lf.Facts...), DomFactsX(r.Block())...) {
+							if notFound(f.Cond, f.Taken) {
+								okNF = true
+							}
+						}
+						if !okNF {
+							nLen = -100
+						}
+					default:
 						nLen = -100
 					}
 				}
 			}
 			for _, r := range allReturns(mk)[:1] {
 				okR := nLen >= 1
-				c.Check(okR, "markAsAcked-returns-bytes", c.Pos(r), "returns len(userData) of the chunk (0 when the TSN is not in flight)", "markAsAcked does not return the chunk's payload length")
+				c.Check(okR, "markAsAcked-returns-bytes", c.Pos(r), "returns len(userData) of the chunk (0 only when the TSN is not in flight)", "markAsAcked returns something other than the chunk's payload length for a chunk it found (e.g. 0 for an abandoned chunk: its bytes are never released to the stream)")
 			}
 		}})
 
